@@ -133,7 +133,21 @@ func runGcsync(c *Ctx) {
 		for _, af := range afs {
 			d := af.decl
 			fname := core.FuncName(d.Obj)
-			lits := escapingLits(c, d)
+			// the release closures: the escaping literals of the type the function returns as its release
+			// function (a section callback given a name first is part of the body of whoever hands it to HoldLock)
+			var lits []*ast.FuncLit
+			{
+				var relT types.Type
+				if sig, ok := d.Obj.Type().(*types.Signature); ok && sig.Results().Len() > 0 {
+					relT = sig.Results().At(0).Type()
+				}
+				for _, l := range escapingLits(c, d) {
+					if lt := d.Pkg.TypesInfo.TypeOf(l); relT != nil && lt != nil && !types.Identical(lt, relT) {
+						continue
+					}
+					lits = append(lits, l)
+				}
+			}
 			// the variables the rows talk about, found by structure (not by name)
 			wr, st, pre := "?write", "?status", "?pre"
 			if v := paramWhere(d, isBoolType); v != nil {
@@ -168,6 +182,41 @@ func runGcsync(c *Ctx) {
 			if v := assignedFromCall(d, d.Decl, 0, func(call *ast.CallExpr) bool { _, ok := callSel(call, "Swap"); return ok }); v != nil {
 				pre = c.Role(v)
 			}
+			// the polarity of a boolean status word: "released/failed" (set on the path that does not
+			// grant) or "held" (set next to the grant write)
+			heldPolarity := false
+			ast.Inspect(d.Decl.Body, func(n ast.Node) bool {
+				blk, ok := n.(*ast.BlockStmt)
+				if !ok {
+					return true
+				}
+				storesTrue, grants := false, false
+				for _, stt := range blk.List {
+					if es, ok := stt.(*ast.ExprStmt); ok {
+						if call, ok := es.X.(*ast.CallExpr); ok && len(call.Args) == 1 {
+							if sel, ok := unparen(call.Fun).(*ast.SelectorExpr); ok && sel.Sel.Name == "Store" && core.ExprString(call.Args[0]) == "true" {
+								if v := identVar(sel.X, &core.Frame{Pkg: d.Pkg}); v != nil && core.IsAtomicType(v.Type()) {
+									storesTrue = true
+								}
+							}
+						}
+					}
+					for _, f := range []string{locked, writing} {
+						if rhs, ok := assignsFieldNode(d, stt, f); ok && rhs != nil && core.ExprString(rhs) == "true" {
+							grants = true
+						}
+					}
+					if ids, ok := stt.(*ast.IncDecStmt); ok && ids.Tok == token.INC {
+						if fv := fieldVar(ids.X, &core.Frame{Pkg: d.Pkg}); fv != nil && core.FieldName(fv) == nread {
+							grants = true
+						}
+					}
+				}
+				if storesTrue && grants {
+					heldPolarity = true
+				}
+				return true
+			})
 			isGrant := func(ev *core.Event) bool {
 				return assignsField(ev, locked, "true") || assignsField(ev, writing, "true") || incDecField(ev, nread, token.INC)
 			}
@@ -222,6 +271,9 @@ func runGcsync(c *Ctx) {
 							want := eq("1", st)
 							if t.name == "TryLock" {
 								want = fnot(fld(st))
+								if heldPolarity {
+									want = fld(st)
+								}
 							}
 							a.requireGuard("R12", fname+"/return-success", g, i, false, want, "a successful return")
 							a.note("R12", fname+"/return-success/after-grant", ev.Pos, !granted,
@@ -265,6 +317,9 @@ func runGcsync(c *Ctx) {
 								"the release closure enters a critical section without first winning an atomic test-and-set: a repeated release changes who holds the lock", p)
 						}
 						first := fnot(fld(st + ".Swap(true)"))
+						if heldPolarity {
+							first = fld(st + ".Swap(false)")
+						}
 						held := for_(eq("1", pre), fand(fnot(eq("0", pre)), fnot(eq("2", pre))))
 						switch {
 						case assignsField(ev, locked, "false"):
